@@ -166,6 +166,10 @@ def h_kneighbors(ctx):
         for j in range(i + 1, npts):
             ctx.assume(Or(Not(eq(ev[i], ev[j])), Not(eq(nv[i], nv[j]))) if ctx.sym else bool(ev[i] != ev[j] or nv[i] != nv[j]))
     d = ctx.reals("d", sh)
+    if cfg.get("layout") == "F":
+        d = np.asfortranarray(d)  # same logical contents, column-major memory
+    elif cfg.get("layout") == "T":
+        d = np.ascontiguousarray(d.T).T  # transposed view
     kn = vd.KNeighbors(k=1)
     kn.fit((e, n), d)
     pred = kn.predict((e, n))
@@ -318,7 +322,7 @@ HARNESSES = [
     Harness(
         "kneighbors_k1",
         h_kneighbors,
-        lambda tier, seed: [{"npts": 2}, {"npts": 3}] + ([{"npts": 4, "shape": (2, 2)}] if tier == "thorough" else []),
+        lambda tier, seed: [{"npts": 2}, {"npts": 3}, {"npts": 4, "shape": (2, 2), "layout": "F"}] + ([{"npts": 4, "shape": (2, 2)}, {"npts": 4, "shape": (2, 2), "layout": "T"}] if tier == "thorough" else []),
         bounds="2-3 (quick) / 4 (thorough) pairwise-distinct points with fully symbolic coordinates and data",
         stubs=["cKDTree -> nearest-neighbour contract"],
         extra_globals=_globals,
